@@ -28,9 +28,29 @@ NVAL = 4
 NAFF = 4
 
 
+SHIFT = [0]      # per history: subtracted from every value (10 gives mixed-sign data)
+
+
 def value(v, shape):
     n = int(np.prod(shape))
-    return ((np.arange(n) * (v + 2) + 3 * v) % 97 + 1).reshape(shape, order='F')
+    return ((np.arange(n) * (v + 2) + 3 * v) % 97 + 1 - SHIFT[0]).reshape(shape, order='F')
+
+
+def core_shape(sh):
+    """shape without trailing unit axes (MGH pads images to three axes: C01's finding S-C01a)"""
+    sh = [int(x) for x in sh]
+    while len(sh) > 1 and sh[-1] == 1:
+        sh.pop()
+    return tuple(sh)
+
+
+def snapshot():
+    out = {}
+    for f in sorted(os.listdir('.')):
+        if os.path.isfile(f) and not os.path.islink(f):
+            with open(f, 'rb') as fh:
+                out[f] = fh.read()
+    return out
 
 
 def affine(a, shape=(2, 3, 4)):
@@ -128,10 +148,16 @@ def run_history(h, workdir):
     os.makedirs(d, exist_ok=True)
     os.chdir(d)
     names = [p['name'] for p in h['paths']]
+    SHIFT[0] = h.get('shift', 0)
     for p in h['paths']:
         if p['init'] is not None:
             v, dt, a = p['init']
-            KLASS[p['fmt']](value(v, shape).astype(NPDT[dt]), affine(a, shape)).to_filename(p['name'])
+            if dt == 'i2s':      # int16 on disk with slope 2, intercept 1: the image holds 2 * raw + 1
+                src = KLASS[p['fmt']](value(v, shape).astype(np.int16), affine(a, shape))
+                src.header.set_slope_inter(2, 1)
+                src.to_filename(p['name'])
+            else:
+                KLASS[p['fmt']](value(v, shape).astype(NPDT[dt]), affine(a, shape)).to_filename(p['name'])
     # other names of the same files: symbolic link, hard link, absolute spelling (every member of a pair)
     for i, p in enumerate(h['paths']):
         if p.get('link') is None:
@@ -223,8 +249,33 @@ def run_history(h, workdir):
                     cur = np.dtype(img.get_data_dtype())
                     img.set_data_dtype(np.float32 if cur.itemsize == 8 else np.float64)
                 res = 'done'
+            elif kind == 'W':
+                # a save that the class must refuse: uint8 storage of mixed-sign data without an intercept
+                p = int(tok[2])
+                pre = np.array(np.asanyarray(img.dataobj))
+                before = snapshot()
+                prev = img.get_data_dtype()
+                img.set_data_dtype(np.uint8)
+                try:
+                    nib.save(img, names[p])
+                    res = 'saved_lossy'
+                except Exception as e:
+                    res = 'ref:writer' if type(e).__name__ == 'WriterError' else classify(e)
+                    after = snapshot()
+                    changed = sorted(f for f in set(before) | set(after) if before.get(f) != after.get(f))
+                    if changed:
+                        print('PRED', hid, k, 'refused_save_changed_files:' + ','.join(changed), 'sig=-', flush=True)
+                finally:
+                    img.set_data_dtype(prev)
+                try:
+                    post = np.asanyarray(img.dataobj)
+                    if post.shape != pre.shape or not np.array_equal(post, pre):
+                        print('PRED', hid, k, 'unusable_after_refusal:differs', 'sig=-', flush=True)
+                except Exception as e:
+                    print('PRED', hid, k, 'unusable_after_refusal:' + type(e).__name__, 'sig=-', flush=True)
             elif kind == 'S':
                 p = int(tok[2])
+                before = snapshot()
                 try:   # what the image holds at this save (read independently of the save)
                     pre = np.array(np.asanyarray(img.dataobj))
                     pre_aff = np.array(img.affine)
@@ -234,27 +285,41 @@ def run_history(h, workdir):
                 prox = img.dataobj
                 if hasattr(prox, 'file_like') and isinstance(prox.file_like, str):
                     own = prox.file_like
-                nib.save(img, names[p])
+                try:
+                    nib.save(img, names[p])
+                except Exception:
+                    after = snapshot()
+                    changed = sorted(f for f in set(before) | set(after) if before.get(f) != after.get(f))
+                    if changed:    # a refused save must leave every file as it was
+                        print('PRED', hid, k, 'refused_save_changed_files:' + ','.join(changed), 'sig=-', flush=True)
+                    raise
                 j = nib.load(names[p], mmap=False)
                 f = file_key(image_file(j))
                 saves.setdefault(f, []).append(s)
                 jd = np.asarray(j.dataobj)
                 res = 'saved:%d:%s:%s:%s' % (p, ident(jd, shape), dtname(j.get_data_dtype()), ident_aff(j.affine, shape))
                 if pre is not None:
-                    lossy = np.dtype(j.get_data_dtype()).kind in 'iu'     # integer storage of float data: C02's bound
-                    same = tuple(int(x) for x in jd.shape) == tuple(int(x) for x in pre.shape) and \
-                        (np.allclose(jd, pre, rtol=0, atol=0.05) if lossy else np.array_equal(jd, pre))
+                    # integer storage of float data, or a history whose sources are scaled integers: C02's bound
+                    lossy = np.dtype(j.get_data_dtype()).kind in 'iu' or h.get('approx', False)
+                    same = core_shape(jd.shape) == core_shape(pre.shape)
+                    if same:
+                        jd = jd.reshape(pre.shape)
+                        same = np.allclose(jd, pre, rtol=0, atol=0.05) if lossy else np.array_equal(jd, pre)
                     if not same:
                         print('PRED', hid, k, 'file_differs:data', 'sig=-', flush=True)
                     elif not np.allclose(j.affine, pre_aff, rtol=0, atol=ATOL):
                         print('PRED', hid, k, 'file_differs:affine', 'sig=-', flush=True)
                     sig = '-'
-                    if own is not None and same_file(own, image_file(j)) and \
-                            np.dtype(j.get_data_dtype()).newbyteorder('=') != np.dtype(prox.dtype).newbyteorder('='):
-                        sig = 'own_file_dtype_changed'
+                    if own is not None and same_file(own, image_file(j)):
+                        if np.dtype(j.get_data_dtype()).newbyteorder('=') != np.dtype(prox.dtype).newbyteorder('='):
+                            sig = 'own_file_dtype_changed'
+                        elif (float(getattr(j.dataobj, 'slope', 1)), float(getattr(j.dataobj, 'inter', 0))) != \
+                                (float(getattr(prox, 'slope', 1)), float(getattr(prox, 'inter', 0))):
+                            sig = 'own_file_scaling_changed'
                     try:
                         post = np.asanyarray(img.dataobj)
-                        if post.shape != pre.shape or not np.array_equal(post, pre):
+                        if post.shape != pre.shape or not (np.allclose(post, pre, rtol=0, atol=0.05) if h.get('approx') else
+                                                           np.array_equal(post, pre)):
                             print('PRED', hid, k, 'unusable:differs', 'sig=' + sig, flush=True)
                     except Exception as e:
                         print('PRED', hid, k, 'unusable:' + type(e).__name__, 'sig=' + sig, flush=True)
